@@ -4,6 +4,7 @@ from ..defuse import du_of, walk, peel, callee_name, fmt
 from ..conds import lits_of
 from ..callgraph import cg_of
 from ..effects import effects_of
+from ..roles import roles_of
 from ..common import arg_term, contains_call, field_path, assigns_of_return, ADAPTER_TRAIT
 
 TEXT = ("Thin claim: the round-trip sentence of C04 (flatten -> diff -> store -> reconstruct equals the input for all "
@@ -19,6 +20,7 @@ TRUSTED = ["rustc nightly MIR", "effect summaries", "yavomrs returns an empty sc
 
 
 def run(facts, res):
+    R = roles_of(facts)
     cg = cg_of(facts)
     eff = effects_of(facts)
     res.rule("U1", "commit writes nothing and returns Ok(None) when nothing is staged")
@@ -94,9 +96,9 @@ def run(facts, res):
             return l.kind == "call" and callee_name(l.term) == "is_array_descriptor" and l.truth is True
         ne_edges = {e for e, l in edges if is_ne_true(l)}
         arr_edges = {e for e, l in edges if is_array_true(l)}
-        some_edges = [e for e, l in edges if l.kind == "variant" and l.variants == {"Some"} and contains_call(l.term, "create_delta_array_descriptor")]
+        some_edges = [e for e, l in edges if l.kind == "variant" and l.variants == {"Some"} and contains_call(l.term, R.name("diff_maker"))]
         for s in sites:
-            g_some = any(l.kind == "variant" and l.variants == {"Some"} and contains_call(l.term, "create_delta_array_descriptor") for l in lits_of(u, s.block, facts))
+            g_some = any(l.kind == "variant" and l.variants == {"Some"} and contains_call(l.term, R.name("diff_maker")) for l in lits_of(u, s.block, facts))
             # plain objects: recorded only if the digest changed
             plain_guarded = bool(ne_edges) and bool(some_edges) and not any(ucfg.reaches(se, s.block, avoid=ne_edges | arr_edges) for se in some_edges)
             # array descriptors are stored as edit scripts against the winner: "unchanged" means "empty script" (the None
@@ -111,7 +113,7 @@ def run(facts, res):
                               "update_object reaches %s only through `digest != winner.digest`, also for array descriptors: a descriptor is an edit script "
                               "relative to the winner, so two successive identical scripts (e.g. removing the first element twice) have the same digest and the "
                               "second edit is silently dropped" % s.name(), s.loc())
-        cd = facts.body("melda::Melda::create_delta_array_descriptor")
+        cd = R.body("diff_maker")
         if cd is not None:
             ok_none = ok_some = False
             du = du_of(cd)
@@ -129,10 +131,10 @@ def run(facts, res):
                 if t.callee is not None and t.callee.name == "make_diff_patch":
                     a0 = arg_term(cd, t, 0, 20)
                     a1 = arg_term(cd, t, 1, 20)
-                    base_ok = contains_call(a0, "rebuild_array_order") and contains_call(a0, "get_winner") and any(x[0] == "param" and x[1] == 2 for x in walk(a1))
-            res.instance("U2", "create_delta_array_descriptor: None iff the edit script is empty (%s/%s); diff = (order at winner) -> (submitted order): %s" % (ok_none, ok_some, base_ok), cd.loc())
+                    base_ok = contains_call(a0, R.name("rebuilder")) and contains_call(a0, "get_winner") and any(x[0] == "param" and x[1] == 2 for x in walk(a1))
+            res.instance("U2", cd.name + ": None iff the edit script is empty (%s/%s); diff = (order at winner) -> (submitted order): %s" % (ok_none, ok_some, base_ok), cd.loc())
             if not (ok_none and ok_some and base_ok):
-                res.violation("U2", "create_delta_array_descriptor|none-iff-empty", "create_delta_array_descriptor: None on empty script: %s, Some otherwise: %s, diff(old = winner order, new = submitted): %s" % (ok_none, ok_some, base_ok), cd.loc())
+                res.violation("U2", "diff-maker|none-iff-empty", cd.name + ": None on empty script: %s, Some otherwise: %s, diff(old = winner order, new = submitted): %s" % (ok_none, ok_some, base_ok), cd.loc())
 
     # ------------------------------------------------------------------ U3
     def consts_of(path, names):
